@@ -557,7 +557,8 @@ def _r30_regex_split(ctx: Ctx, fi: FuncInfo, loop, parts):
 @rule('R30', 'tree rewriting maps branch to branch: one output branch per input branch, untouched parts passed through')
 def r30(ctx: Ctx) -> RuleReport:
     rep = RuleReport('R30', r30.title, floor=8)
-    specs = [('penman.transform', '_canonicalize_node', 'role'), ('penman.tree', '_map_vars', 'target')]
+    from .lexical import map_vars_func
+    specs = [('penman.transform', '_canonicalize_node', 'role'), ('penman.tree', map_vars_func(ctx).qualname, 'target')]
     for mod, qn, rewrites in specs:
         fi = ctx.repo.func(mod, qn)
         cfg = CFG(fi.node)
@@ -1681,6 +1682,28 @@ def r137(ctx: Ctx) -> RuleReport:
                         and len(n.targets[0].elts) == 2 and all(isinstance(e, ast.Name) for e in n.targets[0].elts)]
         for n in pair_assigns:
             tg = [e.id for e in n.targets[0].elts]
+            # first, second = (b, a) if <test> else (a, b)
+            v_ = n.value
+            if isinstance(v_, ast.IfExp) and isinstance(v_.body, ast.Tuple) and isinstance(v_.orelse, ast.Tuple) and len(v_.body.elts) == 2 \
+                    and [norm(e) for e in v_.body.elts] == [norm(e) for e in v_.orelse.elts][::-1] and ref is not None and tg == list(ref):
+                t0 = norm(v_.test).replace(' ', '')
+                plain = [norm(e) for e in v_.orelse.elts]          # the order when the test fails
+                d_ = [x for x in pair_assigns if [e.id for e in x.targets[0].elts] == plain and not isinstance(x.value, (ast.Tuple, ast.IfExp))]
+                if 'get_pushed_variable(' in t0 and '==' in t0 and d_:
+                    # the test must be about the SECOND of the plain order
+                    found = True
+                    about = plain[1] in t0.split('get_pushed_variable(')[1].split(')')[0]
+                    rep.add(key, fi.loc(n), 'ok' if about else 'undecided', norm(v_.test))
+                    continue
+                if 'get_pushed_variable(' in t0 and '!=' in t0 and d_:
+                    found = True
+                    rep.violation(key, fi.loc(n), f'the two relations change places when `{norm(v_.test)}`, i.e. when the second one does NOT push the node')
+                    continue
+                if 'appears_inverted(' in t0:
+                    found = True
+                    rep.violation(key, fi.loc(n), f'the order is decided by `{norm(v_.test)}`: appears_inverted is also true for a triple WITHOUT a Push whose target is the node '
+                                  f'context it appears in; the relations are then exchanged although the node was opened by the first one')
+                    continue
             fx = facts_ex(ctx, fi, n)
             for f, pol in fx:
                 f0 = f.replace(' ', '')
